@@ -26,7 +26,7 @@ def check(run, replay=None):
     run.rule = ("every (type parameter in {contract, dyn Interface, dyn Interface with associated type, Empty, ()} x owned/borrowed x "
                 "address string) encoded by the real Remote with both JSON back ends and decoded back; malformed documents; schema per "
                 "type parameter; non-trivial = distinct (type, ownership, address) or distinct document")
-    libcommon.preamble(run, "Props/C20", THEOREMS)
+    libcommon.preamble(run, "Props/C20", THEOREMS, needs=("remote",))
     n = 400 if thorough else 60
     ops, meta = [], []
     addrs = list(ADDRS) + [rand_addr(rng) for _ in range(n)]
